@@ -152,6 +152,23 @@ fn count_osstr_chars_for_exec(s: &OsStr) -> usize {
 struct MaxCharsCommandSizeLimiter {
     current_size: usize,
     max_chars: usize,
+    /// Bytes charged per argument on top of its characters (the argv pointer
+    /// the operating system stores next to the string).
+    per_arg_overhead: usize,
+    /// Largest single argument (terminator included) that can be passed.
+    max_arg_size: usize,
+}
+
+/// The largest single string `execve` accepts (Linux: `MAX_ARG_STRLEN`, 32 pages).
+#[cfg(any(target_os = "linux", target_os = "android"))]
+fn max_single_arg_size() -> usize {
+    let page_size = unsafe { uucore::libc::sysconf(uucore::libc::_SC_PAGESIZE) };
+    32 * usize::try_from(page_size).unwrap_or(4096)
+}
+
+#[cfg(all(unix, not(any(target_os = "linux", target_os = "android"))))]
+fn max_single_arg_size() -> usize {
+    usize::MAX
 }
 
 impl MaxCharsCommandSizeLimiter {
@@ -159,6 +176,8 @@ impl MaxCharsCommandSizeLimiter {
         Self {
             current_size: 0,
             max_chars,
+            per_arg_overhead: 0,
+            max_arg_size: usize::MAX,
         }
     }
 
@@ -174,14 +193,23 @@ impl MaxCharsCommandSizeLimiter {
         // POSIX requires that we leave 2048 bytes of space so that the child processes
         // can have room to set their own environment variables.
         const ARG_HEADROOM: usize = 2048;
+        // The system charges one pointer per argument and per environment
+        // variable against the same budget as the strings themselves.
+        const POINTER_SIZE: usize = std::mem::size_of::<*const u8>();
         let arg_max = unsafe { uucore::libc::sysconf(uucore::libc::_SC_ARG_MAX) } as usize;
 
         let env_size: usize = env
             .iter()
-            .map(|(var, value)| count_osstr_chars_for_exec(var) + count_osstr_chars_for_exec(value))
+            .map(|(var, value)| {
+                count_osstr_chars_for_exec(var) + count_osstr_chars_for_exec(value) + POINTER_SIZE
+            })
             .sum();
 
-        Self::new(arg_max - ARG_HEADROOM - env_size)
+        Self {
+            per_arg_overhead: POINTER_SIZE,
+            max_arg_size: max_single_arg_size(),
+            ..Self::new(arg_max - ARG_HEADROOM - env_size)
+        }
     }
 }
 
@@ -192,9 +220,11 @@ impl CommandSizeLimiter for MaxCharsCommandSizeLimiter {
         cursor: LimiterCursor<'_>,
     ) -> Result<Argument, ExhaustedCommandSpace> {
         let chars = count_osstr_chars_for_exec(&arg.arg);
-        if self.current_size + chars <= self.max_chars {
+        if chars <= self.max_arg_size
+            && self.current_size + chars + self.per_arg_overhead <= self.max_chars
+        {
             let arg = cursor.try_next(arg)?;
-            self.current_size += chars;
+            self.current_size += chars + self.per_arg_overhead;
             Ok(arg)
         } else {
             Err(ExhaustedCommandSpace {
